@@ -744,11 +744,18 @@ func (c *Client) readResponseTagged(tag, typ string) (startTLS *startTLSCommand,
 		startTLS = cmd
 	}
 
-	if cmdErr == nil && code != "CAPABILITY" {
+	if cmdErr == nil {
 		switch cmd.(type) {
-		case *startTLSCommand, *loginCommand, *authenticateCommand, *unauthenticateCommand:
-			// These commands invalidate the capabilities
+		case *startTLSCommand:
+			// Capabilities received before the TLS handshake (even in the
+			// response completing STARTTLS itself) were sent in plaintext and
+			// must be discarded
 			c.setCaps(nil)
+		case *loginCommand, *authenticateCommand, *unauthenticateCommand:
+			// These commands invalidate the capabilities
+			if code != "CAPABILITY" {
+				c.setCaps(nil)
+			}
 		}
 	}
 
